@@ -51,3 +51,33 @@ Fixpoint chunks_of (script : list rev) : list bytes :=
   end.
 
 Definition stream_bytes (script : list rev) : bytes := List.concat (chunks_of script).
+
+(** * Encoding ([str.encode(enc)], strict): [None] = UnicodeEncodeError. *)
+Definition encode_cp (e : enc) (c : N) : option bytes :=
+  match e with
+  | Latin1 => if N.ltb c 256 then Some [c] else None
+  | Ascii => if N.ltb c 128 then Some [c] else None
+  | Utf8 =>
+      if N.ltb c 128 then Some [c]
+      else if N.ltb c 2048 then Some [192 + c / 64; 128 + c mod 64]%N
+      else if N.ltb c 65536 then
+        if in_range 55296 57343 c then None      (* lone surrogate *)
+        else Some [224 + c / 4096; 128 + (c / 64) mod 64; 128 + c mod 64]%N
+      else if N.ltb c 1114112 then
+        Some [240 + c / 262144; 128 + (c / 4096) mod 64; 128 + (c / 64) mod 64; 128 + c mod 64]%N
+      else None
+  end.
+
+Fixpoint encode (e : enc) (t : text) : option bytes :=
+  match t with
+  | [] => Some []
+  | c :: r =>
+      match encode_cp e c, encode e r with
+      | Some a, Some b => Some (a ++ b)
+      | _, _ => None
+      end
+  end.
+
+Definition bytes_eqb : bytes -> bytes -> bool := list_eqb N.eqb.
+Lemma bytes_eqb_refl a : bytes_eqb a a = true.
+Proof. apply text_eqb_refl. Qed.
